@@ -87,6 +87,16 @@ func (q *timedQueue) pushUnsafe(peerID peer.ID) {
 	}
 }
 
+// hasUnsafe reports whether there is a not yet released item for the given peer
+func (q *timedQueue) hasUnsafe(peerID peer.ID) bool {
+	for _, it := range q.items {
+		if it.ID == peerID {
+			return true
+		}
+	}
+	return false
+}
+
 func (q *timedQueue) len() int {
 	q.Lock()
 	defer q.Unlock()
